@@ -270,6 +270,9 @@ def monitor(prop, cfg, run):
     last_op = ops_at[-1][1] if ops_at else None
     finished_op = any(t[0] == "opdone" for t in ev[ops_at[-1][0]:]) if ops_at else True
     stuck = run.status in ("deadlock", "hang")
+    if run.status == "leftover" and prop == "C08":
+        left = [t for t in ev if t[0] == "leftover"]
+        msgs.append("worker threads %s are still alive after the final stop() returned" % (left[0][1:] if left else "?"))
     if run.status == "abort":
         what = first_line(run.stderr, "ERROR: AddressSanitizer") or first_line(run.stderr, "runtime error")
         msgs.append("the real code crashed (%s)" % (what or "no diagnostic"))
@@ -394,6 +397,8 @@ def model_check(runs):
             lines.append("pool end")
         elif r.status == "deadlock":
             lines.append("pool stuck")
+        elif r.status == "leftover":
+            lines.append("pool end")
         else:
             lines.append("pool status")
         idx.append((start, len(lines)))
@@ -455,7 +460,7 @@ def run_tie(prop, spec, tier, seed):
     # 2. exhaustive DFS with bounded preemptions on small scripts
     dfs_total, dfs_complete = 0, True
     cfgs = DFS_QUICK if tier == "quick" else DFS_THOROUGH
-    budget = 350 if tier == "quick" else 4000
+    budget = 600 if tier == "quick" else 4000
     bound = 2 if tier == "quick" else 3
     for cfg in cfgs:
         rs, complete = dfs(binary, lambda p, cfg=cfg: explicit_line(cfg, p), budget, bound)
@@ -463,7 +468,7 @@ def run_tie(prop, spec, tier, seed):
         dfs_total += len(rs)
         dfs_complete = dfs_complete and complete
     # 3. seeded random schedules of random scripts
-    nrand = 1500 if tier == "quick" else 30000
+    nrand = 4000 if tier == "quick" else 40000
     lines = []
     for i in range(nrand):
         lines.append("run %s seed %d pts" % (gen_cfg(rng, tier), rng.next() % (1 << 40)))
@@ -473,7 +478,7 @@ def run_tie(prop, spec, tier, seed):
     res.evaluations = len(executed)
     res.traces = len(executed)
     distinct = set()
-    stat = {"ok": 0, "deadlock": 0, "abort": 0, "hang": 0}
+    stat = {"ok": 0, "deadlock": 0, "abort": 0, "hang": 0, "leftover": 0}
     opstat = {}
     feat = {"worker_parked": 0, "restart": 0, "clear_with_queued": 0, "stop_with_running_task": 0, "stop_with_queued": 0,
             "two_or_more_workers": 0, "notify_one_hit": 0, "stop_while_worker_in_window": 0, "callable_tasks": 0, "badarg": 0}
@@ -504,8 +509,14 @@ def run_tie(prop, spec, tier, seed):
             feat["badarg"] += 1
         # stop() entered while a task is running / while a worker sits between predicate and block
         running, holder = set(), None
+        queued = set()
         for i, t in enumerate(ev):
+            if t[0] == "submit":
+                queued.add(t[1])
+            elif t[0] == "destroy":
+                queued.discard(t[1])
             if t[0] == "runBegin":
+                queued.discard(t[1])
                 running.add(t[1])
             elif t[0] == "runEnd":
                 running.discard(t[1])
@@ -516,6 +527,8 @@ def run_tie(prop, spec, tier, seed):
             elif t[0] == "op" and t[1] == "stop":
                 if running:
                     feat["stop_with_running_task"] += 1
+                if queued:
+                    feat["stop_with_queued"] += 1
                 if holder is not None:
                     feat["stop_while_worker_in_window"] += 1
     res.distinct = len(distinct)
